@@ -54,6 +54,13 @@ LOOPS = [
     ("labelled", "let i = 0; outer: while i < {N} {{ i = i + 1; let j = 0; while j < 2 {{ j = j + 1; {BODY} }} }}"),
     ("nested", "let k = 0; while k < 3 {{ k = k + 1; let i = 0; while i < {N} {{ i = i + 1; {BODY} }} }}"),
     ("in-fn", "fn run() {{ let i = 0; while i < {N} {{ i = i + 1; {BODY} }} i }} run(); run();"),
+    # loop conditions built from the logical operators: the loop ends through the left or through the right operand
+    ("while-and-left", "let i = 0; while i < {N} && a[1] > 0 {{ i = i + 1; {BODY} }}"),
+    ("while-and-right", "let i = 0; while a[1] > 0 && i < {N} {{ i = i + 1; {BODY} }}"),
+    ("while-or", "let i = 0; while i < {N} || a[1] < 0 {{ i = i + 1; {BODY} }}"),
+    ("nested-while-and", "let k = 0; while k < 3 {{ k = k + 1; let i = 0; while i < {N} && k > 0 {{ i = i + 1; {BODY} }} }}"),
+    ("in-fn-while-and", "fn run() {{ let k = 0; while k < 3 {{ k = k + 1; let i = 0; while i < {N} && true {{ i = i + 1; {BODY} }} }} k }} run(); run();"),
+    ("while-value-cond", "let i = 0; let n = {N}; while n {{ n = n - 1; i = i + 1; {BODY} }}"),
 ]
 PRE = "let a = [0, 1]; fn f(x) { x }\n"
 
